@@ -20,7 +20,9 @@ RESULTS = os.path.join(V, "selftest_results.json")
 
 FIXES = [
     # (commit subject prefix, id, properties whose quick check must catch the reverted fix, regress file)
-    ("fix: charge the clamped price", "D2", ["C01", "C02", "C06", "C07"], "regress/C01/d2-modsvc-zero-price.json"),
+    # since fix D15 the request records what GetExchangedPrice returns, so reverting D2 alone leaves charge and record
+    # consistent (C01/C02 hold) and only the price rule itself is broken
+    ("fix: charge the clamped price", "D2", ["C06", "C07"], "regress/C07/d2-zero-price-unclamped.json"),
     ("fix: reject a module service call when", "D13", ["C01"], "regress/C01/d13-modsvc-unavailable-binding.json"),
     ("fix: do not issue a batch after the fee", "D1", ["C01", "C02", "C06", "C09"], "regress/C01/d1-unpaid-batch-after-failed-deduction.json"),
     ("fix: a module service call issues exactly", "D9", ["C10", "C16"], None),
@@ -165,6 +167,9 @@ def cmd_seeded(only):
         if only and sid not in only:
             continue
         meta = json.load(open(mf))
+        if meta.get("obsolete"):
+            save({"kind": "seeded", "id": sid, "obsolete": meta["obsolete"]})
+            continue
         props = meta.get("check_with") or [meta["property"]]
         apply_and_test("seeded", sid, os.path.join(os.path.dirname(mf), "patch.diff"), props, seeds=("0", "1", "2"))
 
